@@ -30,7 +30,87 @@ chk.extra['rule'] = ('writer histories: random sequences of deferred opens (mode
                      'tier-0 inputs x warning-raising options x -maxwarn. A case is non-trivial if a destination '
                      'pre-exists, or a crash point lies strictly inside finalisation, or it is a CLI run with >= 1 '
                      'warning; distinct = distinct protocol line')
-chk.lean(["VermouthProps.C07"], "driver_c07")
+
+
+def extract_names():
+    """The string constants that decide the names of the files the CLI writes, read from the sources (AST):
+    the two `itp_paths` dictionaries of `entry`, `const=` of -go-write-file, `default=` of -name
+    (bin/martinize2); `"{}.itp".format(moltype)` (write_gmx_topology); `'chain_{}.ssd'` (_savefile_path)."""
+    tree = ast.parse(open(os.path.join(REPO, 'bin', 'martinize2')).read())
+    entry = next(n for n in tree.body if isinstance(n, ast.FunctionDef) and n.name == 'entry')
+    dicts = []
+
+    def visit(stmts, tests):
+        for st in stmts:
+            if isinstance(st, ast.If):
+                t = ast.unparse(st.test)
+                visit(st.body, tests + [t])
+                visit(st.orelse, tests + ['not (%s)' % t])
+            elif isinstance(st, (ast.For, ast.While, ast.With, ast.Try)):
+                for fld in ('body', 'orelse', 'finalbody'):
+                    visit(getattr(st, fld, []) or [], tests)
+                for h in getattr(st, 'handlers', []):
+                    visit(h.body, tests)
+            elif (isinstance(st, ast.Assign) and len(st.targets) == 1 and isinstance(st.targets[0], ast.Name)
+                  and st.targets[0].id == 'itp_paths' and isinstance(st.value, ast.Dict)):
+                d = {k.value: v.value for k, v in zip(st.value.keys, st.value.values)
+                     if isinstance(k, ast.Constant) and isinstance(v, ast.Constant)}
+                dicts.append((tests, d))
+    visit(entry.body, [])
+    go = [d for t, d in dicts if any('go_map' in x and not x.startswith('not (') for x in t)]
+    vs = [d for t, d in dicts if any('water_bias' in x and not x.startswith('not (') for x in t)
+          and not any('go_map' in x and not x.startswith('not (') for x in t)]
+    if len(go) != 1 or len(vs) != 1 or any(set(d) != {'atomtypes', 'nonbond_params'} for d in go + vs):
+        raise ValueError('itp_paths dictionaries of entry() not found as expected: %r' % (dicts,))
+    args = {}
+    for n in ast.walk(entry):
+        if (isinstance(n, ast.Call) and isinstance(n.func, ast.Attribute) and n.func.attr == 'add_argument' and n.args
+                and isinstance(n.args[0], ast.Constant)):
+            args[n.args[0].value] = {kw.arg: kw.value.value for kw in n.keywords if isinstance(kw.value, ast.Constant)}
+    names = {'goAtomtypes': go[0]['atomtypes'], 'goNonbond': go[0]['nonbond_params'],
+             'vsAtomtypes': vs[0]['atomtypes'], 'vsNonbond': vs[0]['nonbond_params'],
+             'goWriteConst': args['-go-write-file']['const'], 'defaultMolname': args['-name']['default']}
+    ttree = ast.parse(open(os.path.join(REPO, 'vermouth', 'gmx', 'topology.py')).read())
+    fn = next(n for n in ast.walk(ttree) if isinstance(n, ast.FunctionDef) and n.name == 'write_gmx_topology')
+    fmts = [n.func.value.value for n in ast.walk(fn)
+            if isinstance(n, ast.Call) and isinstance(n.func, ast.Attribute) and n.func.attr == 'format'
+            and isinstance(n.func.value, ast.Constant) and isinstance(n.func.value.value, str)
+            and len(n.args) == 1 and isinstance(n.args[0], ast.Name) and n.args[0].id == 'moltype']
+    if len(fmts) != 1 or not fmts[0].startswith('{}'):
+        raise ValueError('moltype ITP name format not found as expected: %r' % (fmts,))
+    names['itpSuffix'] = fmts[0][2:]
+    dtree = ast.parse(open(os.path.join(REPO, 'vermouth', 'dssp', 'dssp.py')).read())
+    fn = next(n for n in ast.walk(dtree) if isinstance(n, ast.FunctionDef) and n.name == '_savefile_path')
+    fmts = [n.value for n in ast.walk(fn) if isinstance(n, ast.Constant) and isinstance(n.value, str) and '{}' in n.value
+            and 'savedir' not in n.value]
+    if len(fmts) != 1 or fmts[0].count('{}') != 1:
+        raise ValueError('DSSP save file name format not found as expected: %r' % (fmts,))
+    names['ssdPrefix'], names['ssdSuffix'] = fmts[0].split('{}')
+    names['noOutpath'] = str(None)
+    if any(not isinstance(v, str) or not re.fullmatch(r'[A-Za-z0-9_.\-]*', v) for v in names.values()):
+        raise ValueError('unexpected characters in the extracted names: %r' % (names,))
+    return names
+
+
+def names_lean(names):
+    order = ['goAtomtypes', 'goNonbond', 'vsAtomtypes', 'vsNonbond', 'goWriteConst', 'defaultMolname', 'itpSuffix',
+             'ssdPrefix', 'ssdSuffix', 'noOutpath']
+    body = '\n'.join('    %s := "%s"' % (k, names[k]) for k in order)
+    return ('import VermouthModel.C07_Cli\n'
+            '/-! GENERATED by harness/c07.py on every run of the C07 check from bin/martinize2 (`itp_paths` dictionaries of\n'
+            '`entry`, `const=` of -go-write-file, `default=` of -name), vermouth/gmx/topology.py (`"{}.itp".format(moltype)`)\n'
+            "and vermouth/dssp/dssp.py (`'chain_{}.ssd'`).  Do not edit. -/\n"
+            'namespace C07\n\ndef generatedNames : Names :=\n  {' + body[3:] + ' }\n\nend C07\n')
+
+
+names_err = None
+try:
+    NAMES = extract_names()
+    chk.extra['extracted_names'] = NAMES
+    chk.lean(["VermouthProps.C07", "VermouthProps.C07_Cli"], "driver_c07", generated={'C07Names.lean': names_lean(NAMES)})
+except Exception as e:  # noqa  (the sources no longer have the shape the extraction expects)
+    names_err = 'cannot extract the output file names from the sources: %r' % (e,)
+    chk.lean(["VermouthProps.C07", "VermouthProps.C07_Cli"], "driver_c07")
 chk.trusted.append('harness/c07.py: name <-> Path parser (#name.N# pattern), crash injection shims in the '
                    'vermouth.file_writer namespace, audit hook, oracle')
 chk.assumptions.append('file-system steps (rename, create, append, unlink) are atomic; temp directory disjoint from '
@@ -150,7 +230,7 @@ def static_open_sites(relpath):
     return sorted(set(out))
 
 
-static_errs = []
+static_errs = [names_err] if names_err else []
 static_summary = {}
 for rel in WRITER_MODULES:
     try:
@@ -903,7 +983,7 @@ def cli_eval(j):
         return {'cid': j['cid'], 'ln': line('cli-harness-failure', j['cid']), 'impl': 'harness-failure', 'errs':
                 ['harness: worker failed: ' + traceback.format_exc()[-1500:]], 'nontrivial': False, 'finding': None,
                 'counts': ['cli_worker_failure'], 'use_model': False, 'facts': None, 'kind': 'failed',
-                'branch': j['branch'], 'argv': [], 'cov': {}}
+                'branch': j['branch'], 'argv': [], 'ln2': None, 'impl2': None, 'cov': {}}
 
 
 def cli_eval_(j):
@@ -940,7 +1020,7 @@ def cli_eval_(j):
     after_user = {n: sha(c) for n, c in r['after'].items() if n not in hidden}
     impl = enc_list([enc(r['code']) if isinstance(r['code'], int) else enc(str(r['code'])), enc(left),
                      enc([[n, after_user[n]] for n in sorted(after_user)])])
-    use_model = j['abort'] is None and reached and not isinstance(r['code'], str)
+    use_model = j['abort'] is None and reached and not isinstance(r['code'], str) and r['gate_calls'] == 1
     # ---- oracle
     errs, finding = [], None
     if r['subdirs']:
@@ -1045,12 +1125,47 @@ def cli_eval_(j):
         else:
             cls = n
         counts.append('deferred:' + cls)
+    # ---- model input (`cliout`: the files the run writes, decided by the model from the options + observed facts)
+    ln2 = impl2 = None
+    if use_model:
+        def optp(n):
+            return parse_name(n) if n is not None else None
+        go_no = 0 if j['go'] == 'off' else (1 if j['go'] == 'internal' else 2)
+        gw = [0] if not j['go_write'] else ([1] if j['go_write'] is True else [2, parse_name(j['go_write'])])
+        ds_no = 0 if j['dssp'] == 'off' else (1 if j['dssp'] == 'mdtraj' else 2)
+        options = [optp(j['x']), optp(j['o']), j['name'], j['sep'], go_no, gw, j['water_bias'], ds_no, HAVE_MDTRAJ, j['v'],
+                   optp(j['graph']), optp(j['repair']), optp(j['canon'])]
+        top = r['top'] or {'moltypes': [], 'keys': []}
+        mol_class = []
+        if go_no == 0:
+            for mt in top['moltypes']:
+                m = re.search(r'_(\d+)$', mt)
+                mol_class.append(int(m.group(1)) if m else 0)
+        else:
+            mol_class = [0] * len(top['moltypes'])
+        tmp_names = []
+        for pth, m, fin in r['inside']:
+            if DSSP_TMP_RE.fullmatch(pth) and pth not in tmp_names:
+                tmp_names.append(pth)
+        fct = [mol_class, 'atomtypes' in top['keys'], 'nonbond_params' in top['keys'],
+               [[str(c) for c in d[1]] for d in r['dssp']], [parse_name(n) for n in tmp_names]]
+        conts = {}
+        for n in dumps + artefacts:
+            if n in r['after']:
+                conts[n] = sha(r['after'][n])
+        for n, k, h in r['gate']:
+            conts[n] = h
+        ln2 = line('cliout', logging.WARNING, ent_gate, [[[t, c] for t, c in g] for g in specs],
+                   [[parse_name(n), sha(c)] for n, c in pre.items()], options, fct,
+                   [[parse_name(n), h] for n, h in sorted(conts.items())])
+        impl2 = enc_list([enc(r['code']), enc(left), enc([[n, k] for n, k, h in r['gate']]),
+                          enc([[n, sha(r['after'][n])] for n in sorted(r['after'])])])
     facts = {'top': r['top'], 'dssp': r['dssp'], 'artefacts': artefacts, 'gate': r['gate'], 'kind': kind,
              'after': {n: sha(c) for n, c in r['after'].items()}, 'pre': {n: sha(c) for n, c in pre.items()},
              'ent_gate': ent_gate, 'specs': specs, 'left': left, 'code': r['code']}
     return {'cid': j['cid'], 'ln': ln, 'impl': impl, 'errs': errs, 'nontrivial': nwarn >= 1 or bool(dumps),
             'finding': finding, 'counts': counts, 'use_model': use_model and not finding, 'facts': facts,
-            'kind': kind, 'branch': j['branch'], 'argv': argv, 'cov': chk.worker_lines()}
+            'kind': kind, 'branch': j['branch'], 'argv': argv, 'ln2': ln2, 'impl2': impl2, 'cov': chk.worker_lines()}
 
 
 # ---- the plan ---------------------------------------------------------------------------------------
@@ -1127,8 +1242,6 @@ both_ways('chains', CH2, M3, waive=False)
 both_ways('sep', CH2, M3, sep=True, name='pp', clean_pre=['pp_1.itp'])
 both_ways('merge', CH2, M3 + ['-merge', 'A,B'])
 both_ways('merge-all', CH2, M3 + ['-merge', 'all'], waive=False)
-both_ways('cys', TRP, M3 + ['-cys', '0.5'], waive=False)
-both_ways('cys-none', TRP, M3 + ['-cys', 'none', '-resid', 'input'])
 both_ways('dumps-all', DIPRO, M3, graph='g.pdb', repair='r.pdb', canon='c.pdb', clean_pre=['g.pdb'], warn_pre=['r.pdb', 'cg.pdb'])
 both_ways('dump-graph', DIPRO, M3, graph='graph_dump.pdb', waive=False)
 both_ways('dump-repair', DIPRO, M3, repair='rep.pdb', waive=False)
@@ -1142,21 +1255,21 @@ J('dssp-exe-version-warning', TRP, ['-ff', 'martini3001'], dssp=DSSP_OLD, maxwar
 if HAVE_MDTRAJ:
     both_ways('dssp-mdtraj', TRP, ['-ff', 'martini3001'], dssp='mdtraj')
     both_ways('dssp-mdtraj-verbose', BETA, ['-ff', 'martini3001'], dssp='mdtraj', v=1, warn_pre=['cg.pdb'])   # F-C07-2
-both_ways('posres', DIPRO, M3 + ['-p', 'backbone', '-pf', '500'], waive=False)
-both_ways('posres-all', DIPRO, M3 + ['-p', 'all'])
-both_ways('elastic', TRP, M3 + ['-elastic', '-eunit', 'chain'], waive=False)
-both_ways('elastic-all', CH2, M3 + ['-elastic', '-eunit', 'all', '-eb', 'BB'], waive=False)
-both_ways('elastic-region', TRP, M3 + ['-elastic', '-eunit', '1:10,11:20'], waive=False)
-J('elnedyn', TRP, ['-ff', 'elnedyn22', '-ss', 'C'], need_warn=True)        # no scfix feature: missing-feature warning
-J('elnedyn', TRP, ['-ff', 'elnedyn22', '-ss', 'C', '-noscfix'])
-J('extdih', TRP, ['-ff', 'martini3001', '-ss', 'E', '-ed'], need_warn=True)
-J('extdih', TRP, ['-ff', 'martini3001', '-ss', 'E', '-ed'], maxwarn=[['missing-feature']], need_warn=True)
-J('collagen', DIPRO, ['-ff', 'martini3001', '-collagen'], need_warn=True)
-J('collagen', DIPRO, ['-ff', 'martini3001', '-collagen'], maxwarn=[['missing-feature:1']], need_warn=True)
-J('idr-tune', TRP, M22 + ['-noscfix', '-idr-tune', '-id-regions', '1:5'], need_warn=True)
-J('idr-tune', TRP, M3 + ['-idr-tune', '-id-regions', '1:5'])
-both_ways('termini-ignore', DIPRO, M3 + ['-nter', 'N-ter', '-cter', 'C-ter', '-ignore', 'HOH', '-map-dir', EMPTY_DIR,
-                                      '-ff-dir', EMPTY_DIR], waive=False)
+# options that change what is IN the files, not which files are written: one run each (for the lines of `entry`),
+# alternately blocked and passed
+J('cov-cys', TRP, M3 + ['-cys', '0.5'] + W1, need_warn=True)
+J('cov-cys-none', TRP, M3 + ['-cys', 'none', '-resid', 'input'])
+J('cov-posres', DIPRO, M3 + ['-p', 'backbone', '-pf', '500'] + W1, need_warn=True)
+J('cov-posres-all', DIPRO, M3 + ['-p', 'all'])
+J('cov-elastic', TRP, M3 + ['-elastic', '-eunit', 'chain'] + W1, need_warn=True)
+J('cov-elastic-all', CH2, M3 + ['-elastic', '-eunit', 'all', '-eb', 'BB'])
+J('cov-elastic-region', TRP, M3 + ['-elastic', '-eunit', '1:10,11:20'] + W1, maxwarn=[['general']], need_warn=True)
+J('cov-elnedyn', TRP, ['-ff', 'elnedyn22', '-ss', 'C'], need_warn=True)        # no scfix feature: missing-feature warning
+J('cov-extdih', TRP, ['-ff', 'martini3001', '-ss', 'E', '-ed'], maxwarn=[['missing-feature']], need_warn=True)
+J('cov-collagen', DIPRO, ['-ff', 'martini3001', '-collagen'], need_warn=True)
+J('cov-idr-tune', TRP, M22 + ['-noscfix', '-idr-tune', '-id-regions', '1:5'], maxwarn=[['missing-feature:1']], need_warn=True)
+J('cov-termini-ignore', DIPRO, M3 + ['-nter', 'N-ter', '-cter', 'C-ter', '-ignore', 'HOH', '-map-dir', EMPTY_DIR,
+                                  '-ff-dir', EMPTY_DIR] + W1, need_warn=True)
 # (3) runs that stop before the gate: nothing may appear (requested dumps aside)
 J('abort-merge-conflict', CH2, M3 + ['-merge', 'all', '-merge', 'A,B'], abort='raise', graph='g.pdb', pre=['cg.pdb'])
 J('abort-elastic-go', TRP, M3 + ['-elastic'], go='internal', abort='usage', pre=['cg.pdb'])
@@ -1225,7 +1338,7 @@ def random_job(i):
     J('random', inp, extra, maxwarn=mw, pre=rng.sample(names, rng.randint(0, 4)), **k)
 
 
-for i in range(60 if chk.thorough else 3):
+for i in range(60 if chk.thorough else 2):
     random_job(i)
 
 # ---- execute in forked workers (each run has a scratch directory of its own) -----------------------
@@ -1247,6 +1360,12 @@ for r in cli_rows:
 cli_models = chk.drv.ask([r['ln'] for r in cli_rows]) if chk.lean_ok else [None] * len(cli_rows)
 for r, mo in zip(cli_rows, cli_models):
     chk.case(r['cid'], r['ln'], r['impl'], mo if r['use_model'] else None, r['errs'], r['nontrivial'], finding=r['finding'])
+# the set of files: `outputs` of the model against the pending table at the gate and the directory after the run
+out_rows = [r for r in cli_rows if r['ln2'] is not None]
+out_models = chk.drv.ask([r['ln2'] for r in out_rows]) if chk.lean_ok else [None] * len(out_rows)
+for r, mo in zip(out_rows, out_models):
+    chk.count('cliout_compared')
+    chk.case(r['cid'] + '/files', r['ln2'], r['impl2'], mo, [], r['nontrivial'])
 
 # every file-writing branch must have been seen both blocked by the gate and passed
 seen = {}
@@ -1254,7 +1373,7 @@ for r in cli_rows:
     seen.setdefault(r['branch'], set()).add(r['kind'])
 matrix_errs = []
 for b, kinds in sorted(seen.items()):
-    if b.startswith(('abort-', 'gate-')) or b == 'random':
+    if b.startswith(('abort-', 'gate-', 'cov-')) or b == 'random':
         continue
     if not {'blocked', 'passed'} <= kinds:
         matrix_errs.append('harness: branch %s was only seen %s (needs a blocked and a passed run)' % (b, sorted(kinds)))
